@@ -537,15 +537,21 @@ func stressCase(cfg stressCfg, o *vh.Out) {
 	}
 	tClosed := time.Now()
 	// calls started after Close: must be EOF
-	for _, late := range []func() result{
-		func() result { n, err := conn.Write([]byte("zz-late")); return result{n, err} },
-		func() result { n, err := conn.Read(make([]byte, 3)); return result{n, err} }} {
-		late := late
+	for _, lt := range []struct {
+		write bool
+		f     func() result
+	}{
+		{true, func() result { n, err := conn.Write([]byte("zz-late")); return result{n, err} }},
+		{false, func() result { n, err := conn.Read(make([]byte, 3)); return result{n, err} }}} {
+		lt := lt
 		wg.Add(1)
 		go func() {
 			defer wg.Done()
-			c := &cop{write: false, who: 99, buf: "late"}
-			runOp(c, late)
+			c := &cop{write: lt.write, who: 99, buf: "late", size: 3}
+			if lt.write {
+				c.buf, c.size = "zz-late", 7
+			}
+			runOp(c, lt.f)
 		}()
 	}
 	done := make(chan struct{})
@@ -553,7 +559,7 @@ func stressCase(cfg stressCfg, o *vh.Out) {
 	allReturned := true
 	select {
 	case <-done:
-	case <-time.After(4 * time.Second):
+	case <-time.After(8 * time.Second):
 		allReturned = false
 	}
 	unblock := time.Since(tClosed)
@@ -584,10 +590,10 @@ func stressCase(cfg stressCfg, o *vh.Out) {
 				n++
 			}
 		}
-		fail("pending-call-not-unblocked", fmt.Sprintf("%d Read/Write calls still blocked 4s after Close returned", n))
+		fail("pending-call-not-unblocked", fmt.Sprintf("%d Read/Write calls still blocked 8s after Close returned", n))
 		return
 	}
-	if unblock > 2*time.Second {
+	if unblock > 5*time.Second {
 		fail("unblock-slow", fmt.Sprintf("calls returned %v after Close", unblock))
 		return
 	}
@@ -668,6 +674,10 @@ func stressCase(cfg stressCfg, o *vh.Out) {
 			fail("write-duplicated", fmt.Sprintf("%q reached the sink %d times", s.buf, seen[s.buf]))
 			return
 		}
+		if c.who == 99 {
+			fail("stream-used-after-close", fmt.Sprintf("Write(%q) started after Close returned reached the sink", s.buf))
+			return
+		}
 		var w, k int
 		fmt.Sscanf(s.buf[2:], "%d.%d", &w, &k)
 		if last, ok := lastIdx[w]; ok && k < last {
@@ -711,13 +721,13 @@ func stressCase(cfg stressCfg, o *vh.Out) {
 	o.Count("stress_pending_at_close_" + bucket(nPendingAtClose))
 	// --- linearised history through the model (small ones)
 	if len(snap) <= 12 {
+		// (Close is atomic in the script but closes the reader feeder before the writer feeder in the
+		// real code, so some legitimate histories have no such script: they stay oracle-only)
 		if ln, im, ok := linearise(snap, sink, src, ci, cr); ok {
 			o.Case(ln, im, true)
 			return
-		} else if ln != "" {
-			fail("not-linearizable", ln)
-			return
 		}
+		o.Stats["stress_not_linearised"]++
 	}
 	o.N++
 	o.Stats["stress_oracle_only"]++
@@ -765,19 +775,26 @@ func linearise(ops []cop, sink, src []call, ci, cr int64) (string, string, bool)
 	sort.Slice(all, func(i, j int) bool { return all[i].c.start < all[j].c.start })
 	for _, s := range all {
 		var c *cop
-		for i := range ops {
-			k := &ops[i]
-			if usedOps[k] || k.write != s.write || k.who == 99 {
-				continue
-			}
-			if s.write && k.buf == s.c.buf {
-				c = k
-				break
-			}
-			if !s.write && k.size == len(s.c.buf) && k.inv < s.c.start && (k.ret > s.c.start) {
-				if k.res.String() == "EOF" || (s.c.end != 0 && string(chunk(s.idx, s.c.n)) == k.buf && k.res.n == s.c.n) {
+		// first a caller that completed with exactly this call's outcome, only then one that saw EOF
+		for pass := 0; pass < 2 && c == nil; pass++ {
+			for i := range ops {
+				k := &ops[i]
+				if usedOps[k] || k.write != s.write || k.who == 99 {
+					continue
+				}
+				eof := k.res.String() == "EOF"
+				if (pass == 0) == eof {
+					continue
+				}
+				if s.write && k.buf == s.c.buf {
 					c = k
 					break
+				}
+				if !s.write && k.size == len(s.c.buf) && k.inv < s.c.start && k.ret > s.c.start {
+					if eof || (s.c.end != 0 && s.c.end < k.ret && string(chunk(s.idx, s.c.n)) == k.buf && k.res.n == s.c.n && k.res.err == s.c.err) {
+						c = k
+						break
+					}
 				}
 			}
 		}
@@ -814,11 +831,6 @@ func linearise(ops []cop, sink, src []call, ci, cr int64) (string, string, bool)
 			return "call completed without reaching the stream", "", false
 		}
 		kind, hexbuf := "R", vh.Hex(make([]byte, c.size))
-		if c.who == 99 {
-			if c.buf == "late" && !c.write {
-				hexbuf = vh.Hex(make([]byte, 3))
-			}
-		}
 		if c.write {
 			kind, hexbuf = "W", vh.HexS(c.buf)
 		}
